@@ -3,6 +3,7 @@ import filecmp
 import json
 import os
 import re
+import shutil
 
 import vlib
 from props import corpus
@@ -169,6 +170,40 @@ func pkgDependent(m dsl.Matcher) {
             a.append("-go=" + c["go"])
         return a
 
+    # a second module that declares an old language version in its go.mod and contains code for every
+    # version-gated checker: whatever a front-end derives the target version from, all must derive the same
+    old = os.path.join(os.path.dirname(ws), "oldmod")
+    os.makedirs(old)
+    open(os.path.join(old, "go.mod"), "w").write("module oldmod\n\ngo 1.16\n")
+    for name in ("timeExprSimplify", "syncMapLoadAndDelete", "badSyncOnceFunc", "octalLiteral", "wrapperFunc"):
+        shutil.copytree(os.path.join(vlib.REPO, "checkers", "testdata", name), os.path.join(old, name))
+
+    def oldmod(bname_args):
+        bname, args = bname_args
+        rc, so, se = vlib.sh([os.path.join(bins, bname)] + args, cwd=old, timeout=900)
+        return bname, args, rc, se
+
+    oj = []
+    for gov in ([], ["-go=1.14"], ["-go=1.18"]):
+        oj.append(("go-critic", ["check", "-checkGenerated", "-checkTests", "-enableAll"] + gov + ["./..."]))
+        oj.append(("gocritic", ["check", "-checkGenerated", "-checkTests", "-enableAll"] + gov + ["./..."]))
+        oj.append(("go-critic-analysis", ["-enable-all", "-disable="] + gov + ["./..."]))
+    got = {}
+    for bname, args, rc, se in vlib.parallel(oldmod, oj, workers=6):
+        gov = next((a for a in args if a.startswith("-go=")), "-go unset")
+        got.setdefault(gov, {})[bname] = sorted(parse_lines(se, old))
+        res.count("differential_runs")
+    for gov, per in got.items():
+        ref = per.get("go-critic", [])
+        res.count("old_module_lines", len(ref))
+        if gov == "-go unset" and not any(x[3] in ("timeExprSimplify", "syncMapLoadAndDelete", "badSyncOnceFunc", "octalLiteral") for x in ref):
+            res.inconclusive.append({"kind": "inconclusive", "what": "old-module probe: no version-gated diagnostic with -go unset"})
+        for bname in ("gocritic", "go-critic-analysis"):
+            if per.get(bname) != ref:
+                sa, sb = set(ref), set(per.get(bname, []))
+                res.add_violation("front-ends-differ:%s:old-module:%s" % (bname, gov.replace("=", "")),
+                                  "module with `go 1.16` in go.mod, %s: %s and go-critic report different diagnostics (only-cli=%d only-%s=%d)" % (gov, bname, len(sa - sb), bname, len(sb - sa)),
+                                  {"dir": old, "go_flag": gov, "only_go_critic": sorted(sa - sb)[:6], "only_other": sorted(sb - sa)[:6]})
     jobs = [(ci, c, gi, g) for ci, c in enumerate(confs) for gi, g in enumerate(groups) if tier == "thorough" or (ci + gi) % 2 == 0 or ci < 2 or c.get("env")]
 
     def one(job):
